@@ -108,23 +108,34 @@ func (demuxer *Demuxer) process() {
 		}
 
 		packet := p.(*Packet)
-		var err error
-		switch packet.Channel {
-		case ChannelVideo:
-			err = demuxer.vdp.Depacketize(packet)
-		case ChannelVideoControl:
-			err = demuxer.vdp.Control(packet)
-		case ChannelAudio:
-			err = demuxer.adp.Depacketize(packet)
-		case ChannelAudioControl:
-			err = demuxer.adp.Control(packet)
-		}
-
-		if err != nil {
+		if err := demuxer.depacketize(packet); err != nil {
 			demuxer.logger.Errorf("rtp demuxer: depackeetize rtp frame error :%s", err.Error())
 			// break
 		}
 	}
+}
+
+// depacketize handles one packet. A panic raised while handling it (malformed
+// input) is turned into an error: the packet is dropped and the conversion
+// goroutine keeps serving the packets that follow.
+func (demuxer *Demuxer) depacketize(packet *Packet) (err error) {
+	defer func() {
+		if r := recover(); r != nil {
+			err = fmt.Errorf("panic: %v \n %s", r, debug.Stack())
+		}
+	}()
+
+	switch packet.Channel {
+	case ChannelVideo:
+		err = demuxer.vdp.Depacketize(packet)
+	case ChannelVideoControl:
+		err = demuxer.vdp.Control(packet)
+	case ChannelAudio:
+		err = demuxer.adp.Depacketize(packet)
+	case ChannelAudioControl:
+		err = demuxer.adp.Control(packet)
+	}
+	return
 }
 
 // Close .
